@@ -8,14 +8,18 @@ META = {
                  "views of the entered round with strictly increasing versions, from any state, for every interleaving of "
                  "kernel operations and reads) + differential correspondence with the real kernel acting as state machine "
                  "and gossip reader (reads withheld arbitrarily) + Coq stream monitors on what the real consumers received",
-    "level": "P/partial. Proved: between two round entrances the state machine only receives views of the round it entered, "
-             "with strictly increasing versions above the entrance answer; kernel events never move that bar. Monitored on "
-             "every run against the real mirror (harness = state machine + gossip reader with random read timing, also "
-             "across crashes/restarts): both streams strictly newer and growing per (height, round), and after reading until "
-             "nothing is offered each consumer holds the mirror's latest version of the views it is entitled to. The gossip "
-             "half of 'leaving votes are delivered' is refuted (known finding: a single nil-voted-round snapshot is "
-             "overwritten by the next nil commit when the gossip reader is slow). Round-session changes and the lag manager "
-             "are not modelled; real goroutine scheduling of the kernel select is trusted.",
+    "level": "P/partial. Proved over ALL histories of kernel operations (proposed headers, votes, replayed headers), entrances and reads "
+             "without restarts (Properties/C11.v, C11Streams.v): GOSSIP stream - two deliveries of one (height, round) in a slot have "
+             "strictly increasing versions and growing proposals / signer sets, rounds never go back; STATE-MACHINE stream - within an "
+             "entrance the delivered views start above the entrance answer with strictly increasing versions and growing content, "
+             "jump-aheads are for a later round / height; CURRENCY - after an empty state-machine read the manager's last sent version "
+             "is the kernel view's version (full); after an empty gossip read all three slots equal the kernel's views (for histories "
+             "whose accepted replays settle their round; refuted otherwise by a witness needing double-signed precommits of majority "
+             "power). A rejected replay is the identity (after the repo fix found by these proofs). Refuted: nil-voted-round votes reach "
+             "gossip (known finding: single slot); versions across a restart. Monitored on every run against the real mirror (harness "
+             "= state machine + gossip reader with random read timing, also across crashes/restarts, and under CONCURRENT callers of "
+             "Handle*): both streams strictly newer and growing, jump-aheads ordered, currency after quiescence. Round-session changes "
+             "and the lag manager are not modelled; real goroutine scheduling of the kernel select is trusted.",
     "note": "Trusted: Coq kernel; reads are decided by a 40 ms receive timeout after a kernel barrier; correspondence harness. "
             "No axioms.",
     "design_ref": "DESIGN.md 4 (C11)",
